@@ -26,6 +26,7 @@ Proof.
     destruct (http_fronts_conv cid fs) as [xs'|e]; [|discriminate]. inversion H; subst.
     destruct (IH xs' eq_refl) as [IH1 IH2]. cbn [map]. unfold http_front_conv in E.
     destruct (fd_host f); [|discriminate]. destruct (fd_cert f =? -5); [discriminate|].
+    destruct (fd_cert f =? -6); [discriminate|].
     destruct (negb (Bool.eqb (fd_key f) (negb (fd_cert f =? -1)))); [discriminate|].
     destruct (negb (fd_hsts f =? -1) && negb (fd_key f && negb (fd_cert f =? -1))); [discriminate|].
     destruct (fd_hsts f =? 2); [discriminate|]. inversion E; subst. cbn [fst f_addr f_cluster].
@@ -210,9 +211,10 @@ Qed.
 Definition listener_ok (d : decl) (l : ldecl) : Prop :=
   ld_proto l <> -1                                                   (* a protocol is given *)
   /\ (is_some (ld_public l) && (ld_expect l =? 1)) = false           (* public_address excludes expect_proxy *)
-  /\ (ld_proto l = 0 -> ld_hsts l = -1)                              (* no HSTS on plain HTTP *)
+  /\ (ld_proto l = 0 -> ld_hsts l = -1 /\ sid_ok l = true)          (* no HSTS on plain HTTP; a usable sozu_id_header *)
   /\ (ld_proto l = 1 ->
         ld_hsts l <> 2                                               (* an [hsts] block names [enabled] *)
+        /\ sid_ok l = true /\ listener_cert_check l = None           (* a default certificate is readable, parses and has its key *)
         /\ (forall p, ld_alpn l = Some p -> forallb (fun x => bytes_eqb x b_h2 || bytes_eqb x b_http11) p = true)
         /\ (ld_dh11 l = 1 -> exists p, ld_alpn l = Some p /\ p <> [] /\ memb b_http11 p = false)).
 
@@ -227,17 +229,19 @@ Definition constraints (d : decl) (cf : config) : Prop :=
   /\ d_autosave d = false.
 
 Lemma build_listener_ok : forall d l b, build_listener d l = Ok b ->
-  (ld_proto l = 0 -> ld_hsts l = -1)
+  (ld_proto l = 0 -> ld_hsts l = -1 /\ sid_ok l = true)
   /\ (ld_proto l = 1 ->
-        ld_hsts l <> 2
+        ld_hsts l <> 2 /\ sid_ok l = true /\ listener_cert_check l = None
         /\ (forall p, ld_alpn l = Some p -> forallb (fun x => bytes_eqb x b_h2 || bytes_eqb x b_http11) p = true)
         /\ (ld_dh11 l = 1 -> exists p, ld_alpn l = Some p /\ p <> [] /\ memb b_http11 p = false)).
 Proof.
   intros d l b H. unfold build_listener in H. split.
-  - intros E. rewrite E in H. simpl (0 =? 0) in H. cbv iota in H. destruct (ld_hsts l =? -1) eqn:Eh; [now apply Z.eqb_eq in Eh|discriminate].
+  - intros E. rewrite E in H. simpl (0 =? 0) in H. cbv iota in H. destruct (ld_hsts l =? -1) eqn:Eh; [|discriminate].
+    cbn [negb] in H. destruct (sid_ok l) eqn:Es; [|discriminate]. split; [now apply Z.eqb_eq in Eh|reflexivity].
   - intros E. rewrite E in H. simpl (1 =? 0) in H. simpl (1 =? 1) in H. cbv iota in H.
     destruct (resolve_alpn l) as [alpn|e] eqn:Ea; [|discriminate].
-    destruct (ld_hsts l =? 2) eqn:Eh; [discriminate|]. apply Z.eqb_neq in Eh. split; [exact Eh|].
+    destruct (listener_cert_check l) eqn:Ec; [discriminate|]. destruct (sid_ok l) eqn:Es; [|discriminate]. cbn [negb] in H.
+    destruct (ld_hsts l =? 2) eqn:Eh; [discriminate|]. apply Z.eqb_neq in Eh. split; [exact Eh|]. split; [reflexivity|]. split; [reflexivity|].
     unfold resolve_alpn in Ea. destruct (ld_alpn l) as [[|p ps]|] eqn:El.
     + split; [intros p Hp; inversion Hp; reflexivity|].
       intros Ed. rewrite Ed in Ea. cbn in Ea. discriminate.
@@ -258,7 +262,7 @@ Proof.
   destruct (is_some (ld_public l) && (ld_expect l =? 1)) eqn:Ei; [discriminate|].
   destruct (build_listener d l) as [b|e] eqn:Eb; [|discriminate].
   constructor; [|eapply IH; exact H].
-  apply build_listener_ok in Eb as [B1 B2]. unfold listener_ok. repeat split; auto; now apply B2.
+  apply build_listener_ok in Eb as [B1 B2]. unfold listener_ok. split; [exact Ep|]. split; [exact Ei|]. split; [exact B1|exact B2].
 Qed.
 
 Lemma load_in_constraints : forall d order cf, load_in d order = Ok cf -> constraints d cf.
